@@ -114,7 +114,9 @@ Step ==
             ELSE IF Len(rcvdW) >= 1 THEN Fail("timeoutloop-received-unsent-write-context")
             ELSE rcvdW' = Append(rcvdW, e.a) /\ armedW' = e.a /\ UNCHANGED <<lk, cPre, cPost, late, ws, role, flate, sentW, sentR, rcvdR, armedR, succeeded, reg, everReg, ctlReg, pingSent, notified, gor, crG, atCall, wcOK, rcvdCode, bad, skip>>
        \* ---------------- the read side: every step that consumes input or hands bytes over is taken under readMu ----------------
-       [] e.ev \in ReadSteps /\ lk["rd"] # e.g -> Fail("read-step-without-read-lock:" \o e.ev)
+       \* (MrRead with no bytes and an error is the line of a call that is on its way OUT: when the read loop's closeWith(true) had to give
+       \* up readMu for a closer that was already inside close(), and then finds the connection closed, it returns without the lock)
+       [] e.ev \in ReadSteps /\ lk["rd"] # e.g /\ ~(e.ev = "MrRead" /\ e.a = 0 /\ e.b # 0) -> Fail("read-step-without-read-lock:" \o e.ev)
        [] e.ev \in {"RdArm", "RdPayArm", "RdHeader", "RdPayload"} ->
             LET v == IF e.ev \in {"RdArm", "RdPayArm"} THEN e.a ELSE 0 IN
             IF rcvdR # <<>> THEN (IF Head(rcvdR) # v THEN Fail("timeoutloop-received-other-read-context")
